@@ -214,6 +214,9 @@ def run(ctx):
             tree = ast.parse(text)
         except (SyntaxError, ValueError, RecursionError):
             continue
+        if any(isinstance(n, ast.ImportFrom) and any(a.name == '*' for a in n.names) for n in ast.walk(tree)):
+            cov['skipped_star_import'] = cov.get('skipped_star_import', 0) + 1      # names come from other modules (C09's domain)
+            continue
         if fd.kw_star_walrus(tree):           # outside the stated sub-domain (open finding, re-run above)
             cov['skipped_kw_star_walrus'] = cov.get('skipped_kw_star_walrus', 0) + 1
             continue
@@ -221,7 +224,7 @@ def run(ctx):
         try:
             A = Layout(text, fname)
         except fd.DumpError as e:
-            ctx.notes.append('dumper failed closed: %s' % e)
+            ctx.histogram('dumper_failed_closed', str(e)[:60])
             A = None
         except RecursionError:
             continue
